@@ -179,6 +179,16 @@ class Recorder:
                 elif which == "ndim":
                     if hasattr(type(h), "n_dim"):  # collections do not offer n_dim / datatype
                         h.n_dim, h.datatype
+            elif kind == "Doc":
+                from .doc import tag
+
+                extra["doc"] = tag(O[op["a"]].toJson())
+            elif kind == "FromDoc":
+                from .doc import tag, untag
+
+                extra["redoc"] = {"j": "str", "v": "-"}
+                r = hg.Factory.fromJson(untag(op["doc"]))
+                extra["redoc"] = tag(r.toJson())
             elif kind == "Drop":
                 del O[op["s"]]
             else:
@@ -191,6 +201,8 @@ class Recorder:
         if kind == "FillNumpy":
             extra["inputs_unchanged"] = arg["data"].tobytes() == arg["before"] and (
                 "wb" not in arg or arg["w"].tobytes() == arg["wb"])
+        if kind == "Doc" and "doc" not in extra:
+            extra["doc"] = {"j": "str", "v": "-"}
         if kind == "Eq" and "res" not in extra:
             extra["res"] = {"ab": False, "ba": False, "ne": True, "tab": False, "tba": False}
         ch, dropped = self.observe()
